@@ -1,36 +1,45 @@
 (* Calls.v — model of boundary crossings: INTERNAL_invoke_with_func_ptr,
    sandbox_callback_interceptor, the back end's thread record {sandbox,
-   last_callback_invoked} (impl_invoke_with_func_ptr saves/restores it with a
-   scope_exit), transition hooks (RLBOX_TRANSITION_ACTION_IN/OUT), transition
-   timing records, for call trees of any depth and width with an abort injected
-   at any argument-conversion / callback-body / result-conversion position. *)
+   last_callback_invoked} (impl_invoke_with_func_ptr saves/restores the sandbox
+   with a scope_exit; the per-slot trampoline stores the slot; the interceptor
+   reads (sandbox, key-of-slot) before anything else), transition hooks
+   (RLBOX_TRANSITION_ACTION_IN/OUT), transition timing records, value conversion
+   of one argument and of the result in both directions, for call trees of any
+   depth and width.  An abort arises wherever a value is not representable
+   (argument or result conversion, either direction) or a callback body throws. *)
 From RLBoxV Require Export Machine.
 Local Open Scope Z_scope.
 
-Inductive fault := FNone | FArg | FBody | FRes.
-
-(* a node is an invocation (of sandbox [id]) or a callback call (of entry point
-   [id] of the executing sandbox); children alternate: the guest body of an
-   invocation calls callbacks, the body of a callback invokes.  [catches]: a
-   callback body that catches the exceptions of its nested invocations. *)
-Inductive node := Node (id : nat) (f : fault) (catches : bool) (kids : list node).
+(* a node is an invocation (of guest function [fnid] in sandbox [tgt]) or a guest call of
+   entry point (slot) [tgt] of the executing sandbox; children alternate: the guest body
+   of an invocation calls callbacks, the body of a callback invokes.
+   [arg]: the value passed (application value for an invocation, guest value for a
+   callback call); [ret]: the value the body returns (guest value for an invocation,
+   application value for a callback); [throws]: the callback body throws after its nested
+   invocations; [catches]: the callback body catches the exceptions of its nested invocations. *)
+Inductive node := Node (tgt fnid : nat) (arg ret : Z) (throws catches : bool) (kids : list node).
 
 Inductive ev :=
 | EIn (is_invoke : bool) (ident : nat) (state : nat)    (* RLBOX_TRANSITION_ACTION_IN(kind, name/key, transition_state) *)
 | EOut (is_invoke : bool) (ident : nat) (state : nat)
-| ERan (fn : nat) (sb : nat)                            (* application callback fn ran, given sandbox sb *)
-| EGuest (sb : nat).                                    (* guest function body entered in sandbox sb *)
+| EGuest (sb fnid : nat) (a : Z)        (* guest function fnid of sandbox sb's library entered, saw a *)
+| EInvRes (sb : nat) (r : option Z)     (* the application received the (tainted) result; None: void *)
+| ERan (fn sb : nat) (a : Z)            (* application callback fn ran, was given sandbox sb and argument a *)
+| EGuestGot (sb : nat) (r : option Z)   (* guest code got r back from the entry point *)
+| ETrap (sb slot : nat).                (* guest code called an entry point that is not issued *)
 
-(* which application function is registered at entry point k of sandbox s *)
-Definition registered := nat -> nat -> nat.
+(* the back end's per-thread record *)
+Record thr := { cur : nat; lastcb : nat }.
 
-(* result: events, aborted?, thread's current sandbox afterwards, timing records (kind, ident) *)
-Definition rr := (list ev * bool * nat * list (bool * nat))%type.
+(* a timing record: (sandbox whose vector receives it, is_invoke, name/key) *)
+Definition trec := (nat * bool * nat)%type.
+(* result: events, aborted?, thread record afterwards, timing records in push_back order *)
+Definition rr := (list ev * bool * thr * list trec)%type.
 
 (* run the children in order; [stop]: an abort of a child ends the loop (guest frames never
    catch; a callback body only if it does not catch) *)
-Definition kids_loop (r : nat -> node -> rr) (stop : bool) : list node -> nat -> rr :=
-  fix loop (l : list node) (c : nat) : rr :=
+Definition kids_loop (r : thr -> node -> rr) (stop : bool) : list node -> thr -> rr :=
+  fix loop (l : list node) (c : thr) : rr :=
     match l with
     | [] => ([], false, c, [])
     | k :: tl =>
@@ -40,35 +49,65 @@ Definition kids_loop (r : nat -> node -> rr) (stop : bool) : list node -> nat ->
     end.
 
 Section Run.
-Variable reg : registered.
-Variable invoke_name : nat.           (* identity of the invoked sandbox function *)
+Variable slot_of : nat -> nat -> option nat.   (* back-end slot table: sandbox, slot -> registered application function *)
+Variable cb_void : nat -> bool.                (* application function fn returns void *)
+Variable g_void : nat -> bool.                 (* guest function fnid returns void *)
+Variable cin : Z -> res Z.                     (* application -> sandbox conversion of the value type *)
+Variable cout : Z -> res Z.                    (* sandbox -> application *)
+(* [late_key]: false = the code (the interceptor fetches (sandbox, key) on entry);
+   true = a variant that fetches the key only after the body's nested crossings (used to show
+   in Coq that the early fetch is necessary) *)
+Variable late_key : bool.
 
-Fixpoint run (is_invoke : bool) (cur : nat) (n : node) {struct n} : rr :=
+Fixpoint run (is_invoke : bool) (t : thr) (n : node) {struct n} : rr :=
   match n with
-  | Node id f catches kids =>
+  | Node tgt fnid arg ret throws catches kids =>
     if is_invoke then
-      (* application -> sandbox id *)
-      let e_in := EIn true invoke_name id in
-      let e_out := EOut true invoke_name id in
-      match f with
-      | FArg => ([e_in; e_out], true, cur, [(true, invoke_name)])
-      | _ =>
-        let '(evs, ab, c, recs) := kids_loop (run false) true kids id in
-        (* impl_invoke_with_func_ptr restores the thread's sandbox on every exit (scope_exit) *)
-        let ab' := ab || match f with FRes => true | _ => false end in
-        (e_in :: EGuest id :: evs ++ [e_out], ab', cur, recs ++ [(true, invoke_name)])
+      (* application -> guest function fnid of sandbox tgt *)
+      let e_in := EIn true fnid tgt in
+      let e_out := EOut true fnid tgt in
+      let rc : trec := (tgt, true, fnid) in
+      match cin arg with
+      | Ok a' =>
+        let t1 := {| cur := tgt; lastcb := lastcb t |} in           (* impl_invoke_with_func_ptr *)
+        let '(evs, ab, t2, recs) := kids_loop (run false) true kids t1 in
+        let t3 := {| cur := cur t; lastcb := lastcb t2 |} in        (* its scope_exit, on every exit *)
+        let pre := e_in :: EGuest tgt fnid a' :: evs in
+        if ab then (pre ++ [e_out], true, t3, recs ++ [rc])
+        else if g_void fnid then (pre ++ [e_out; EInvRes tgt None], false, t3, recs ++ [rc])
+        else match cout ret with
+             | Ok r' => (pre ++ [e_out; EInvRes tgt (Some r')], false, t3, recs ++ [rc])
+             | _ => (pre ++ [e_out], true, t3, recs ++ [rc])
+             end
+      | _ => ([e_in; e_out], true, t, [rc])
       end
     else
-      (* guest code of sandbox [cur] calls entry point id *)
-      let fn := reg cur id in
-      let e_out := EOut false fn cur in
-      let e_in := EIn false fn cur in
-      match f with
-      | FArg => ([e_out; e_in], true, cur, [(false, fn)])
-      | _ =>
-        let '(evs, ab, c, recs) := kids_loop (run true) (negb catches) kids cur in
-        let ab' := ab || match f with FBody | FRes => true | _ => false end in
-        (e_out :: ERan fn cur :: evs ++ [e_in], ab', c, recs ++ [(false, fn)])
+      (* guest code of sandbox [cur t] calls entry point tgt *)
+      match slot_of (cur t) tgt with
+      | None => ([ETrap (cur t) tgt], true, t, [])
+      | Some _ =>
+        let t1 := {| cur := cur t; lastcb := tgt |} in            (* trampoline tgt *)
+        let sb := cur t1 in
+        match slot_of sb (lastcb t1) with                         (* interceptor entry *)
+        | None => ([ETrap sb tgt], true, t1, [])
+        | Some fn0 =>
+          match cout arg with
+          | Ok a' =>
+            let '(evs, ab, t2, recs) := kids_loop (run true) (negb catches) kids t1 in
+            let fn := if late_key then match slot_of sb (lastcb t2) with Some f => f | None => fn0 end else fn0 in
+            let e_out := EOut false fn0 sb in
+            let e_in := EIn false fn0 sb in
+            let rc : trec := (sb, false, fn0) in
+            let pre := e_out :: ERan fn sb a' :: evs in
+            if ab || throws then (pre ++ [e_in], true, t2, recs ++ [rc])
+            else if cb_void fn then (pre ++ [e_in; EGuestGot sb None], false, t2, recs ++ [rc])
+            else match cin ret with
+                 | Ok r' => (pre ++ [e_in; EGuestGot sb (Some r')], false, t2, recs ++ [rc])
+                 | _ => (pre ++ [e_in], true, t2, recs ++ [rc])
+                 end
+          | _ => ([EOut false fn0 sb; EIn false fn0 sb], true, t1, [(sb, false, fn0)])
+          end
+        end
       end
   end.
 End Run.
@@ -80,7 +119,8 @@ Definition frame_eqb (a b : frame) : bool :=
   let '(a1, a2, a3) := a in let '(b1, b2, b3) := b in
   Bool.eqb a1 b1 && Nat.eqb a2 b2 && Nat.eqb a3 b3.
 
-(* an invocation is In ... Out ; a callback inside it is Out ... In *)
+(* an invocation is In ... Out ; a callback inside it is Out ... In; the closing
+   notification must carry the same kind, identity and transition state as the opening one *)
 Fixpoint nest (stack : list frame) (evs : list ev) : option (list frame) :=
   match evs with
   | [] => Some stack
@@ -93,5 +133,78 @@ Fixpoint nest (stack : list frame) (evs : list ev) : option (list frame) :=
   | _ :: tl => nest stack tl
   end.
 
+(* the closing notifications, in order, as the timing records they must correspond to *)
+Fixpoint closes (evs : list ev) : list trec :=
+  match evs with
+  | [] => []
+  | EOut true i s :: tl => (s, true, i) :: closes tl
+  | EIn false i s :: tl => (s, false, i) :: closes tl
+  | _ :: tl => closes tl
+  end.
+
 Definition crossings (evs : list ev) : nat :=
   length (filter (fun e => match e with EIn true _ _ | EOut false _ _ => true | _ => false end) evs).
+
+(* the application functions that ran, with the sandbox they were handed *)
+Fixpoint rans (evs : list ev) : list (nat * nat) :=
+  match evs with
+  | [] => []
+  | ERan fn sb _ :: tl => (fn, sb) :: rans tl
+  | _ :: tl => rans tl
+  end.
+
+(* ---------- what C12 demands: dispatch decided by the entry point called, nothing else ---------- *)
+(* the same tree run by the specification: entry point [tgt] called by sandbox [c] runs
+   [slot_of c tgt]; no thread record is consulted *)
+Section Spec.
+Variable slot_of : nat -> nat -> option nat.
+Variable cb_void : nat -> bool.
+Variable g_void : nat -> bool.
+Variable cin : Z -> res Z.
+Variable cout : Z -> res Z.
+
+Definition kids_spec (r : nat -> node -> list ev * bool) (stop : bool) : list node -> nat -> list ev * bool :=
+  fix loop (l : list node) (c : nat) : list ev * bool :=
+    match l with
+    | [] => ([], false)
+    | k :: tl =>
+      let '(e1, ab1) := r c k in
+      if ab1 && stop then (e1, true)
+      else let '(e2, ab2) := loop tl c in (e1 ++ e2, ab2)
+    end.
+
+Fixpoint spec (is_invoke : bool) (c : nat) (n : node) {struct n} : list ev * bool :=
+  match n with
+  | Node tgt fnid arg ret throws catches kids =>
+    if is_invoke then
+      match cin arg with
+      | Ok a' =>
+        let '(evs, ab) := kids_spec (spec false) true kids tgt in
+        let pre := EIn true fnid tgt :: EGuest tgt fnid a' :: evs in
+        if ab then (pre ++ [EOut true fnid tgt], true)
+        else if g_void fnid then (pre ++ [EOut true fnid tgt; EInvRes tgt None], false)
+        else match cout ret with
+             | Ok r' => (pre ++ [EOut true fnid tgt; EInvRes tgt (Some r')], false)
+             | _ => (pre ++ [EOut true fnid tgt], true)
+             end
+      | _ => ([EIn true fnid tgt; EOut true fnid tgt], true)
+      end
+    else
+      match slot_of c tgt with
+      | None => ([ETrap c tgt], true)
+      | Some fn =>
+        match cout arg with
+        | Ok a' =>
+          let '(evs, ab) := kids_spec (spec true) (negb catches) kids c in
+          let pre := EOut false fn c :: ERan fn c a' :: evs in
+          if ab || throws then (pre ++ [EIn false fn c], true)
+          else if cb_void fn then (pre ++ [EIn false fn c; EGuestGot c None], false)
+          else match cin ret with
+               | Ok r' => (pre ++ [EIn false fn c; EGuestGot c (Some r')], false)
+               | _ => (pre ++ [EIn false fn c], true)
+               end
+        | _ => ([EOut false fn c; EIn false fn c], true)
+        end
+      end
+  end.
+End Spec.
